@@ -677,6 +677,11 @@ func (t *Table) Update(input *types.UpdateItemInput) (map[string]*types.Item, er
 		return nil, err
 	}
 
+	// the updated item still needs its key attributes, with the declared types
+	if _, err := t.KeySchema.GetKey(t.AttributesDef, item); err != nil {
+		return nil, types.NewError("ValidationException", err.Error(), nil)
+	}
+
 	if err := t.validateIndexKeys(item); err != nil {
 		return nil, err
 	}
